@@ -120,6 +120,17 @@ G12(e, subj) == /\ subj.fam = "wr" /\ subj.kind = "vectored"
                 /\ e.got /= sent /\ Len(e.got) = Len(sent) /\ e.ob = e.oa
 KF12(e, subj) == G12(e, subj) /\ UNCHANGED <<viewVars, wireVars>>
 
+(* C13-KF13: the buffering wrappers turn an ErrorKind::Interrupted of the inner reader /  *)
+(* writer into ErrorKind::Other (StreamBufferedReader fill / bulk read, ZeroCopyBuffer     *)
+(* fill_from / drain_to under ZeroCopyReader / ZeroCopyWriter): read_exact / write_all on   *)
+(* top no longer retry and a validly written record is refused / a write fails half way.    *)
+(* The driver ends the run at that event.                                                   *)
+G13(e, subj) == /\ subj.fam = "dio"
+                /\ "interrupted" \in DOMAIN e /\ e.interrupted
+                /\ \/ subj.variant \in {"vec-sbr_intr", "vec-zc_intr"} /\ e.op = "read_refused" /\ HasNext
+                   \/ subj.variant = "zcw_short-zc_short" /\ e.op = "panic" /\ e.in = "write"
+KF13(e, subj) == G13(e, subj) /\ UNCHANGED <<wireVars, viewVars>>
+
 (* guard (state predicate) and action of each deviation.  In KF mode a deviation whose    *)
 (* guard holds REPLACES the contract action for that event.                                *)
 DevApplies(id, e, subj) ==
@@ -135,6 +146,7 @@ DevApplies(id, e, subj) ==
     \/ id = "C13-KF10" /\ G10(e, subj)
     \/ id = "C13-KF11" /\ G11(e, subj)
     \/ id = "C13-KF12" /\ G12(e, subj)
+    \/ id = "C13-KF13" /\ G13(e, subj)
 KnownDeviation(id, e, subj) ==
     \/ id = "C13-KF1" /\ KF1(e, subj)
     \/ id = "C13-KF2" /\ KF2(e, subj)
@@ -148,4 +160,5 @@ KnownDeviation(id, e, subj) ==
     \/ id = "C13-KF10" /\ KF10(e, subj)
     \/ id = "C13-KF11" /\ KF11(e, subj)
     \/ id = "C13-KF12" /\ KF12(e, subj)
+    \/ id = "C13-KF13" /\ KF13(e, subj)
 =============================================================================
